@@ -44,7 +44,8 @@ Proof.
     - destruct (b32_round _); [|discriminate]. cbn [bind]. intros H; injection H as <-. apply (enc_le_wfb 4).
     - intros H; injection H as <-. apply (enc_le_wfb 8). }
   destruct (_ =? lA)%N; [|discriminate].
-  destruct (attsiz_nat t); [|discriminate]. cbn [bind]. destruct v; try discriminate. apply arr_enc_wfb.
+  destruct (attsiz_nat t); [|discriminate]. cbn [bind]. destruct v; try discriminate.
+  destruct (negb _); [discriminate|]. apply arr_enc_wfb.
 Qed.
 
 Lemma nomval_wfv t v : nomval t = Ok v -> wfv v.
